@@ -45,9 +45,52 @@ def body(desc, ctx):
         ctx.fail('cell_list_changed_by_operation', 'an operation returning a new mesh modified t or p of its operand',
                  mesh=desc['cls'])
     tables(desc, ctx, m, 'after-operations')
+    if ctx.failures:
+        return
+    # meshes DERIVED from this one now that its tables are cached: each is a mesh in its own right
+    import skfem
+    derived = []
+    sib = {'MeshTri1': 'MeshTri2', 'MeshQuad1': 'MeshQuad2', 'MeshTet1': 'MeshTet2', 'MeshHex1': 'MeshHex2', 'MeshLine1': None,
+           'MeshTri2': 'MeshTri1', 'MeshQuad2': 'MeshQuad1', 'MeshTet2': 'MeshTet1', 'MeshHex2': 'MeshHex1', 'MeshWedge1': None}
+    try:
+        cls = type(m)
+        derived.append(('from_mesh_same', cls.from_mesh(m)))
+        if sib.get(desc['cls']):
+            other = getattr(skfem, sib[desc['cls']]).from_mesh(m)
+            derived.append(('from_mesh_sibling', other))
+            _ = other.facets, other.t2f
+            derived.append(('from_mesh_back', cls.from_mesh(other)))
+        if kind in ('tri', 'tet') and desc['cls'].endswith('1'):
+            mo = m.oriented()
+            derived.append(('oriented', mo))
+            _ = mo.facets, mo.t2f
+            derived.append(('oriented_from_mesh', getattr(skfem, desc['cls']).from_mesh(mo)))
+            if sib.get(desc['cls']):
+                m2 = getattr(skfem, sib[desc['cls']]).from_mesh(mo)
+                _ = m2.facets, m2.t2f
+                derived.append(('oriented_sibling_back', getattr(skfem, desc['cls']).from_mesh(m2)))
+        if desc['cls'] in ('MeshTri2', 'MeshTet2'):
+            # the same cells handed over in the external layout (vertex rows followed by the rows of the extra nodes), vertex
+            # rows not ascending, with and without sorting requested: whatever the constructor does to t, the tables must
+            # describe the finished cell list
+            ext = m.dofs.element_dofs.copy()
+            nvr = m.t.shape[0]
+            ext[:nvr] = ext[:nvr][::-1]
+            derived.append(('external_layout', cls(m.doflocs.copy(), ext.copy())))
+            derived.append(('external_layout_sorted', cls(m.doflocs.copy(), ext.copy(), sort_t=True)))
+        derived.append(('translated', m.translated(tuple([0.5] * m.dim()))))
+        derived.append(('tagged', m.with_boundaries({'b': m.boundary_facets()[:1]})))
+        if desc['cls'].endswith('1') and m.nelements > 1:
+            derived.append(('restricted', m.restrict(np.arange(1, m.nelements))))
+    except NotImplementedError:
+        pass
+    for label, md in derived:
+        tables(dict(desc, cls=type(md).__name__), ctx, md, 'derived:' + label, renumber=False)
+        if ctx.failures:
+            return
 
 
-def tables(desc, ctx, m, phase):
+def tables(desc, ctx, m, phase, renumber=True):
     from ..oracle.topo import topo_of_mesh
     kind = gm.mesh_kind(desc)
     feat = desc['feat']
@@ -181,7 +224,7 @@ def tables(desc, ctx, m, phase):
     # reverse vertex numbering and cell order: derived predicates, as coordinate sets, are invariant
     import skfem
     n = m.p.shape[1]
-    if desc['cls'] in gm.CLS1.values():
+    if renumber and desc['cls'] in gm.CLS1.values():
         perm = np.arange(nv)[::-1].copy()
         p2 = np.empty_like(m.p)
         p2[:, perm] = m.p
